@@ -180,7 +180,7 @@ func c08Setup(run *c08Run) net.Conn {
 		panic(err)
 	}
 	sess.SetCryptographer(&c08Crypt{sec, run})
-	sess.Decrypter() // promotes the cryptographer (hap/session.go)
+	responseWritten(ctx, gate) // promotes the cryptographer (hap/session.go)
 	return hcConn
 }
 
@@ -395,7 +395,7 @@ func c08Free(cfg c08Cfg, rng *rand.Rand, keepAlive bool) *c08Result {
 	sess := ctx.GetSessionForConnection(gate)
 	sec, _ := crypto.NewSecureSessionFromSharedKey(c08Shared)
 	sess.SetCryptographer(&c08Crypt{sec, run})
-	sess.Decrypter()
+	responseWritten(ctx, gate)
 	start := make(chan struct{})
 	var wg sync.WaitGroup
 	for i := 0; i < n; i++ {
